@@ -18,6 +18,8 @@ pub mod c14;
 #[cfg(kani)]
 pub mod c15;
 #[cfg(kani)]
+pub mod c17;
+#[cfg(kani)]
 pub mod c18;
 #[cfg(kani)]
 pub mod c19;
